@@ -179,6 +179,8 @@ type unmarshalEntry struct {
 type hasher struct {
 	// IDSize of the respective Shwap container
 	IDSize int // to be set during hasher registration
+	// MhCode is the multihash code the hasher is registered for
+	MhCode uint64 // to be set during hasher registration
 
 	sum []byte
 }
@@ -204,6 +206,12 @@ func (h *hasher) write(data []byte) error {
 	id, err := extractFromCID(cid)
 	if err != nil {
 		return err
+	}
+
+	// the resulting sum is taken as an ID of the Block type the hasher is registered for,
+	// so the Block must be of that type
+	if mhType := cid.Prefix().MhType; mhType != h.MhCode {
+		return fmt.Errorf("multihash type %d of the block does not match the hasher's %d", mhType, h.MhCode)
 	}
 
 	// get registered UnmarshalFn and use it to check data validity and
